@@ -87,24 +87,43 @@ static void dump(long seq, int step, int op, long ret, jwk_set_t *s, const char 
 	printf("]\n");
 }
 
+/* documents reach the keyring through the string, file-name and FILE* entry points in turn */
+static char tmpname[64];
+static jwk_set_t *load_doc(jwk_set_t *s, const char *doc, long seq, int step)
+{
+	int how = (int)((seq + step) % 3);
+	FILE *f;
+	if (how == 0) return jwks_load(s, doc);
+	if (!tmpname[0]) snprintf(tmpname, sizeof(tmpname), "/tmp/vh_c16_%d.json", (int)getpid());
+	f = fopen(tmpname, "wb");
+	if (!f) vh_harness_fail("tmp file");
+	fwrite(doc, 1, strlen(doc), f);
+	fclose(f);
+	if (how == 1) return jwks_load_fromfile(s, tmpname);
+	f = fopen(tmpname, "rb");
+	s = jwks_load_fromfp(s, f);
+	fclose(f);
+	return s;
+}
+
 static jwk_set_t *do_op(long seq, int step, int op, jwk_set_t *s)
 {
 	char doc[1024], d1[256], d2[256], d3[256], ids[96] = "";
 	long ret = 0;
 	size_t n = jwks_item_count(s);
 	switch (op) {
-	case 0: case 1: snprintf(ids, sizeof(ids), "g:a:%ld", next_uid); mk_good(doc, sizeof(doc), "a", next_uid++); s = jwks_load(s, doc); break;
-	case 2: snprintf(ids, sizeof(ids), "g:b:%ld", next_uid); mk_good(doc, sizeof(doc), "b", next_uid++); s = jwks_load(s, doc); break;
-	case 3: snprintf(ids, sizeof(ids), "x:%ld", next_uid); last_bad_uid = next_uid; mk_bad(doc, sizeof(doc), next_uid++); s = jwks_load(s, doc); break;
+	case 0: case 1: snprintf(ids, sizeof(ids), "g:a:%ld", next_uid); mk_good(doc, sizeof(doc), "a", next_uid++); s = load_doc(s, doc, seq, step); break;
+	case 2: snprintf(ids, sizeof(ids), "g:b:%ld", next_uid); mk_good(doc, sizeof(doc), "b", next_uid++); s = load_doc(s, doc, seq, step); break;
+	case 3: snprintf(ids, sizeof(ids), "x:%ld", next_uid); last_bad_uid = next_uid; mk_bad(doc, sizeof(doc), next_uid++); s = load_doc(s, doc, seq, step); break;
 	case 4:
 		snprintf(ids, sizeof(ids), "g:c:%ld,x:%ld,g:a:%ld", next_uid, next_uid + 1, next_uid + 2);
 		mk_good(d1, sizeof(d1), "c", next_uid); mk_bad(d2, sizeof(d2), next_uid + 1); mk_good(d3, sizeof(d3), "a", next_uid + 2);
 		last_bad_uid = next_uid + 1;
 		next_uid += 3;
 		snprintf(doc, sizeof(doc), "{\"keys\":[%s,%s,%s]}", d1, d2, d3);
-		s = jwks_load(s, doc);
+		s = load_doc(s, doc, seq, step);
 		break;
-	case 5: snprintf(ids, sizeof(ids), "notjson"); s = jwks_load(s, "{\"keys\": [ this is not json"); break;
+	case 5: snprintf(ids, sizeof(ids), "notjson"); s = load_doc(s, "{\"keys\": [ this is not json", seq, step); break;
 	case 6: ret = jwks_item_free(s, 0); break;
 	case 7: ret = jwks_item_free(s, n / 2); break;
 	case 8: ret = jwks_item_free(s, n ? n - 1 : 0); break;
@@ -120,7 +139,7 @@ static jwk_set_t *do_op(long seq, int step, int op, jwk_set_t *s)
 		off = (size_t)snprintf(big, cap, "{\"keys\":[");
 		for (size_t i = 0; i < cnt; i++) { mk_good(one, sizeof(one), "k", next_uid++); off += (size_t)snprintf(big + off, cap - off, "%s%s", i ? "," : "", one); }
 		snprintf(big + off, cap - off, "]}");
-		s = jwks_load(s, big);
+		s = load_doc(s, big, seq, step);
 		free(big);
 		break;
 	}
@@ -194,5 +213,6 @@ int main(int argc, char **argv)
 		}
 	}
 	printf("[\"STATS\",%lu]\n", nops);
+	if (tmpname[0]) remove(tmpname);
 	return 0;
 }
